@@ -272,6 +272,83 @@ def text_flow(ctx, rule, what='parse(dump(g))'):
         ctx.error(rule, '%s `%s`: the document text is used in a way that is not tabled; cannot decide' % (where, t[:70]))
     ctx.count('rebindings of the document text in parse()', n)
     ctx.floor('rebindings of the document text in parse()', n, 3)
+    _splitter(ctx, rule, m, fn, tparam, what)
+
+
+def _splitter(ctx, rule, m, fn, tparam, what):
+    """The ZINC text is cut into grids at GRID_SEP (a blank line) and nowhere else, without looking inside: the writers
+    never emit a raw line break inside a value (C08.D1), so a blank line is a separator wherever it stands.  A splitter
+    that scans the text with its own token regex is a second lexer; it must know every quoting construct of the ZINC
+    grammar -- strings "..." AND URIs `...` -- or a delimiter-looking character inside the construct it does not know
+    changes its state."""
+    import re as _re
+    text_vars = {tparam}
+    for st in ast.walk(fn):
+        if isinstance(st, ast.Assign) and len(st.targets) == 1 and isinstance(st.targets[0], ast.Name) \
+                and any(isinstance(x, ast.Name) and x.id in text_vars for x in ast.walk(st.value)) \
+                and isinstance(st.value, ast.Call) and isinstance(st.value.func, ast.Attribute) \
+                and st.value.func.attr in ('decode', 'sub'):
+            text_vars.add(st.targets[0].id)
+    have_sep = False
+    others = []
+    for c in ast.walk(fn):
+        if not (isinstance(c, ast.Call) and isinstance(c.func, ast.Attribute)):
+            continue
+        recv, attr = norm(c.func.value), c.func.attr
+        on_text = any(isinstance(a, ast.Name) and a.id in text_vars for a in c.args)
+        if recv == 'GRID_SEP' and attr == 'split' and on_text:
+            have_sep = True
+        elif on_text and attr in ('finditer', 'findall', 'split', 'scanner', 'search', 'match', 'fullmatch') and recv not in ('TRAILING_NL_RE',):
+            others.append((c, recv, attr))
+        elif recv in text_vars and attr in ('split', 'partition', 'rpartition', 'find', 'index', 'rsplit'):
+            others.append((c, recv, attr))
+    where = '%s:%d' % (FR, fn.lineno)
+    for c, recv, attr in others:
+        pat = None
+        try:
+            rc = m.fold('parser', c.func.value)
+            pat = getattr(rc, 'pattern', None)
+        except Exception:
+            pat = None
+        if pat is None and recv == 're' and c.args:
+            try:
+                pat = m.fold('parser', c.args[0])
+            except Exception:
+                pat = None
+        if not isinstance(pat, str):
+            ctx.error(rule, '%s:%d the document is scanned with `%s`: not a tabled framing step; cannot decide' % (FR, c.lineno, norm(c)[:60]))
+            continue
+        try:
+            parsed = _re._parser.parse(pat)
+        except Exception as e:
+            ctx.error(rule, 'splitter regex %r: %s' % (pat[:40], e))
+            continue
+        items = list(parsed)
+        alts = [items]
+        if len(items) == 1 and items[0][0] == _re._constants.BRANCH:
+            alts = [list(a) for a in items[0][1][1]]
+        firsts = set()
+        for a in alts:
+            if a and a[0][0] == _re._constants.LITERAL:
+                firsts.add(chr(a[0][1]))
+        if '"' in firsts and '`' not in firsts:
+            ctx.violation(rule, '%s::parse' % FR, norm(c)[:120],
+                          '%s for two grids of which the first holds the URI `<<` (or `a<<b`, or a URI with one "): the splitter '
+                          'steps over "..." strings but not over `...` URIs, takes the `<<` inside the URI for the start of a nested '
+                          'grid (or the " for the start of a string), ignores the blank line that follows and hands both grids to '
+                          'the grammar as one -- the document is rejected or the grids merge' % what,
+                          'the document is cut by a scanner (`%s` over %r) that recognises the string quoting of ZINC but not the '
+                          'URI quoting: text inside a URI changes the scanner\'s state' % (norm(c.func)[:40], pat[:60]),
+                          file=FR, line=c.lineno, engine='E3')
+        else:
+            ctx.error(rule, '%s:%d the document is scanned with the regex %r: not a tabled framing step; cannot decide'
+                      % (FR, c.lineno, pat[:60]))
+    if not others:
+        if have_sep:
+            ctx.ob(rule, 'the ZINC text is cut into grids by GRID_SEP.split and by nothing else (no second lexer over the raw text)',
+                   True, where)
+        else:
+            ctx.error(rule, 'parse(): no GRID_SEP.split over the document text found; how the text is cut into grids is not decided')
 
 
 # ---------------------------------------------------------------- order-carrying structures are not built from sets
